@@ -878,6 +878,18 @@ def held_state(fit, want_asym):
     return h
 
 
+class _Abort(Exception):
+    """The case cannot be judged by C17 (discarded, never a verdict)."""
+
+
+def _finite_state(h):
+    for k in ("values", "errors", "cost", "gof", "p"):
+        v = h[k]
+        if v is not None and not np.all(np.isfinite(np.asarray(v, dtype=float))):
+            return False
+    return True
+
+
 def _same(a, b):
     if a is None or b is None:
         return a is None and b is None
@@ -1106,9 +1118,15 @@ def observe(ctx, fit, case, tmpdir, step):
             ctx.note("observe.asymmetric-errors-not-computable")  # not a display problem: observe without them
             want_asym = False
     pre_asym = want_asym
-    with time_limit(90):
-        held_state(fit, pre_asym)
-        hb = held_state(fit, pre_asym)
+    try:
+        with time_limit(90):
+            held_state(fit, pre_asym)
+            hb = held_state(fit, pre_asym)
+    except Exception as e:
+        # the fit object cannot even be read (e.g. scipy minimizer after fix/release): nothing to compare a display with
+        raise _Abort("held state not readable (%s)" % type(e).__name__)
+    if hb["did_fit"] and not _finite_state(hb):
+        raise _Abort("non-finite fit state")
     # ---- report
     buf = io.StringIO()
     ctx.op("report")
@@ -1246,6 +1264,9 @@ def run_report(ctx, case):
         complete = fitted_obs > 0
     except OpTimeout:
         ctx.discard("report-case-timeout")
+        return False
+    except _Abort as e:
+        ctx.discard("report case: %s" % e)
         return False
     finally:
         shutil.rmtree(tmpdir, ignore_errors=True)
